@@ -17,6 +17,8 @@ Violation reasons are kept apart by their first word:
     handle:     db[key] (live FeatureDB handle) differs from the model
     printed:    str(db[key]) is not the line the strategy keeps (dialect of the file)
     lookup:     a stored feature is not found by region(..., completely_within=True) / all_features(limit=) at its position
+Case kinds: "history" (with "built"/"modes": Feature objects whose coordinates are edited after construction, see feed),
+"locked" (update() under a transient lock held by another connection, see execute_locked), "badforce".
 """
 import os
 
@@ -38,7 +40,13 @@ RULE = ("histories of 1-2 colliding keys with 2-6 arrivals each (plus unique fea
         "/ True / 'debug') handed to create_db and every update - drawn per history and, in a dedicated block, one "
         "history run under all three values -, colliding lines with 0-2 extra (10th, 11th) columns that differ from "
         "arrival to arrival (under merge: equal per key), column variants of one key placed in different genomic bins "
-        "(1-500, 40000001-40000500, 300000000-300000400, ...); every stored feature is also read through the live "
+        "(1-500, 40000001-40000500, 300000000-300000400, ...); colliding newcomers that are Feature objects whose start/end were "
+        "edited after construction - by a transform handed to create_db / update (the text carries the construction "
+        "coordinates) or by the caller before create_db / update(list of Features) -, positions drawn around the genomic-bin "
+        "boundaries (131072, 1048576, 8388608; one base before / on / after), constructed in another bin (100..200-like, "
+        "300 Mb away, shifted by 1 / 131072, longer by 1 / 70000) or with the stored feature's coordinates and edited away; "
+        "one update() per quick run (thorough: every strategy) made while another sqlite3 connection holds a write "
+        "transaction for 6.5-7 s (> the 5 s busy timeout) and then releases it, no key colliding; every stored feature is also read through the live "
         "handle (db[key], str(), region(completely_within=True) and all_features(limit=) at its position); non-trivial = >= 3 arrivals on one key; "
         "distinct = distinct (strategy, importer, force set/order, number of batches, per-key column-equality pattern, "
         "input classes, verbose)")
@@ -84,7 +92,23 @@ REQUIRED = ["histories", "arrivals", "stored features compared", "attribute valu
             "db[key] compared with the model (columns, attributes, extra)",
             "printed lines compared with the kept arrival's line", "printed lines compared with the kept arrival's line (gtf)",
             "printed lines with extra columns compared",
-            "printed lines of merged features compared (columns, attribute parts)"]
+            "printed lines of merged features compared (columns, attribute parts)",
+            # coordinates edited after construction
+            "features whose coordinates were edited after construction (by a transform)",
+            "features whose coordinates were edited after construction (by the caller)",
+            "update() calls with a transform that edits coordinates",
+            "update() calls with a list of Feature objects edited by the caller",
+            "edited colliding newcomer (by a transform): merged into key", "edited colliding newcomer (by the caller): merged into key",
+            "edited colliding newcomer (by a transform): spawned", "edited colliding newcomer (by the caller): spawned",
+            "edited colliding newcomer moved into the bin and onto the coordinates of the stored feature: merged into key",
+            "edited colliding newcomer moved into another genomic bin: spawned",
+            "edited colliding newcomer moved into another genomic bin: ignored",
+            "edited colliding newcomer moved into another genomic bin: replaced",
+            "edited colliding newcomer moved into another genomic bin: unique",
+            "colliding newcomer built with the stored feature's coordinates, edited away: spawned",
+            # transient lock
+            "transient lock: update() calls made while another connection held a write transaction > 5 s",
+            "transient-lock cases judged"]
 REQUIRED_CLASSES = (["strategy=" + s for s in M.STRATEGIES] + ["fmt=gff3", "fmt=gtf", "path=create", "path=create+update"]
                     + ["non-default GTF keys: strategy=" + s for s in M.STRATEGIES]
                     + ["non-default GTF keys: path=create", "non-default GTF keys: path=create+update"]
@@ -94,7 +118,9 @@ REQUIRED_CLASSES = (["strategy=" + s for s in M.STRATEGIES] + ["fmt=gff3", "fmt=
                     + ["force subset size=%d" % i for i in range(7)]
                     + ["verbose=%r: strategy=%s" % (v, s) for v in (False, True, "debug") for s in M.STRATEGIES]
                     + ["input class: extra columns, strategy=" + s for s in M.STRATEGIES]
-                    + ["input class: variants in different genomic bins, strategy=" + s for s in M.STRATEGIES])
+                    + ["input class: variants in different genomic bins, strategy=" + s for s in M.STRATEGIES]
+                    + ["coordinates edited after construction (%s): strategy=%s" % (m, s) for m in ("transform", "objects")
+                       for s in M.STRATEGIES])
 ASSUMPTIONS = [
     "one strategy, one force_merge_fields set and one id_spec per history (create_db and every update alike)",
     "a history in which the fresh '<key>_n' is already the key of another feature, or in which two candidates agree with "
@@ -119,6 +145,12 @@ ASSUMPTIONS = [
     "a stored feature with defined coordinates is among region((seqid, start, end), completely_within=True) and "
     "all_features(limit=(seqid, start, end)); what else these return is C06's subject (only ids that are not stored at all "
     "are reported)",
+    "a feature is what is handed to the importer: its columns are those it has after a transform / after the caller's "
+    "edits, whatever they were when the object was constructed; a transform is a pure function of the feature's "
+    "(start, end) that leaves an already edited feature alone (so it may be applied more than once)",
+    "transient lock: update() may raise sqlite3.OperationalError (then only a retry of the same update on a fresh handle, "
+    "after the release, is judged) or return normally; either way the content must be the model's. Only update() is "
+    "exercised (create_db makes its own file)",
 ]
 QUICK_SHARDS = 4
 THOROUGH_SHARDS = 16
@@ -170,6 +202,9 @@ def report(ctx, case, reason, msg, **detail):
     d = {"why": "%s: %s" % (reason, msg), "strategy": case["strategy"], "force": case["force"], "importer": case["fmt"]}
     d.update(detail)
     d["input"] = [text_of(b, case["fmt"]) for b in case["batches"]]
+    if case.get("built"):
+        d["features constructed at [start, end] and then edited to the input's (null: not edited)"] = case["built"]
+        d["edited by"] = ["a transform" if m == "transform" else "the caller (list of Feature objects)" for m in case["modes"]]
     ctx.violation(case, d)
 
 
@@ -207,9 +242,44 @@ def real_kwargs(case, bi=0):
     return kw
 
 
+def feed(case, bi, b):
+    """What is handed to create_db / update for batch bi -> (data, keyword arguments).  With "built": the Feature objects
+    are constructed at other coordinates and edited to the record's afterwards, by a transform or by the caller."""
+    fmt = case["fmt"]
+    bl = case["built"][bi] if case.get("built") else None
+    if not bl or not any(bl):
+        return text_of(b, fmt), {"from_string": True}
+    shown = [dict(r, start=p[0], end=p[1]) if p else r for r, p in zip(b, bl)]
+    if case["modes"][bi] == "transform":
+        final = dict(((int(p[0]), int(p[1])), (int(r["start"]), int(r["end"]))) for r, p in zip(b, bl) if p)
+
+        def transform(f):
+            to = final.get((f.start, f.end))
+            if to is not None:
+                f.start, f.end = to
+            return f
+
+        return text_of(shown, fmt), {"from_string": True, "transform": transform}
+    from gffutils.feature import feature_from_line
+
+    D = point(fmt)
+    feats = []
+    for r, p, sh in zip(b, bl, shown):
+        f = feature_from_line(MD.render_line(sh, D))
+        if p:
+            if p[0] != r["start"]:
+                f.start = int(r["start"])
+            if p[1] != r["end"]:
+                f.end = int(r["end"])
+        feats.append(f)
+    return feats, {}
+
+
 def execute(ctx, case):
     if case["kind"] == "badforce":
         return execute_badforce(ctx, case)
+    if case["kind"] == "locked":
+        return execute_locked(ctx, case)
     import gffutils
 
     fmt, strategy = case["fmt"], case["strategy"]
@@ -224,19 +294,24 @@ def execute(ctx, case):
     db = None
     try:
         for bi, b in enumerate(batches):
-            text = text_of(b, fmt)
             expect_abort = outcome == ("abort", bi)
             kw = real_kwargs(case, bi)
+            data, more = feed(case, bi, b)
+            kw.update(more)
             try:
                 if bi == 0:
-                    db = gffutils.create_db(text, dbfn, from_string=True, **kw)
+                    db = gffutils.create_db(data, dbfn, **kw)
                 else:
                     if reopen_before(case, bi) and dbfn != ":memory:":
                         db.conn.close()
                         db = gffutils.FeatureDB(dbfn)
                         ctx.mon("database reopened before update()")
-                    db.update(text, from_string=True, make_backup=False, **kw)
+                    db.update(data, make_backup=False, **kw)
                     ctx.mon("update() calls")
+                    if "transform" in kw:
+                        ctx.mon("update() calls with a transform that edits coordinates")
+                    if isinstance(data, list):
+                        ctx.mon("update() calls with a list of Feature objects edited by the caller")
                     if "transcript_key" in kw:
                         ctx.mon("update() calls with transcript_key / gene_key")
                     if "verbose" in kw:
@@ -290,6 +365,28 @@ def observed(ctx, case, store):
         ctx.mon("histories with force_merge_fields in non-canonical order (%s)" % case["fmt"])
     if case.get("gtfkeys"):
         ctx.mon("GTF histories under non-default transcript/gene keys")
+    if case.get("built"):
+        ctx.mon("histories with features edited after construction")
+        recs = [r for b in case["batches"] for r in b]
+        pairs = [p for bl in case["built"] for p in bl]
+        modes = [m for m, bl in zip(case["modes"], case["built"]) for _ in bl]
+        first = {}
+        for rec, p, mode, word in zip(recs, pairs, modes, store.log):
+            key = dict((k, v) for k, v in rec["attrs"])[case["idkey"]][0]
+            here = (rec["start"], rec["end"])
+            if p:
+                who = "by a transform" if mode == "transform" else "by the caller"
+                ctx.mon("features whose coordinates were edited after construction (%s)" % who)
+                if word != "new":
+                    what = "spawned" if word.startswith("spawned") else word
+                    ctx.mon("edited colliding newcomer (%s): %s" % (who, what))
+                    if G.bin_of(*p) != G.bin_of(*here):
+                        ctx.mon("edited colliding newcomer moved into another genomic bin: %s" % what)
+                        if key in first and first[key] == here and G.bin_of(*p) != G.bin_of(*first[key]):
+                            ctx.mon("edited colliding newcomer moved into the bin and onto the coordinates of the stored feature: %s" % what)
+                    if key in first and tuple(p) == first[key] and first[key] != here:
+                        ctx.mon("colliding newcomer built with the stored feature's coordinates, edited away: %s" % what)
+            first.setdefault(key, here)
     runs = store.collision_runs()
     later = [r for r in runs if r > 0]
     if 0 in runs and len(later) >= 2:
@@ -575,6 +672,106 @@ def execute_badforce(ctx, case):
     return True
 
 
+def execute_locked(ctx, case):
+    """
+    update() of a file database while another sqlite3 connection (other thread) holds a write transaction on the file for
+    longer than sqlite3's busy timeout (5 s) and then releases it.  No key collides.  Either update() raises
+    sqlite3.OperationalError - then only a retry of the same update on a fresh handle is judged - or it returns, and then
+    (as after the retry) the content must be the model's: every newcomer under its own key.
+    """
+    import sqlite3
+    import threading
+    import time
+
+    import gffutils
+
+    fmt, strategy = case["fmt"], case["strategy"]
+    base, new = case["batches"]
+    tk, gk = link_keys(case)
+    store, outcome = M.run(strategy, case["force"], case["batches"], case["idkey"],
+                           link_keys=[("level-1", tk)] + ([("level-2", gk)] if gk else []))
+    if outcome[0] != "ok" or any(w != "new" for w in store.log):
+        ctx.skip("harness: a transient-lock case in which keys collide")
+        return None
+    dbfn = ctx.tmp(".db")
+    db = blocker = None
+    try:
+        db = gffutils.create_db(text_of(base, fmt), dbfn, from_string=True, **real_kwargs(case, 0))
+        if db.dialect["fmt"] != fmt:
+            ctx.skip("harness: file not routed to the %s importer" % fmt)
+            return None
+        db.conn.close()
+        db = gffutils.FeatureDB(dbfn)
+        blocker = sqlite3.connect(dbfn, check_same_thread=False, isolation_level=None)
+        blocker.execute("BEGIN IMMEDIATE")
+        t_lock = time.time()
+        released = []
+
+        def release():
+            time.sleep(case["hold"])
+            blocker.execute("ROLLBACK")
+            released.append(time.time())
+
+        th = threading.Thread(target=release)
+        th.start()
+        raised = None
+        try:
+            try:
+                db.update(text_of(new, fmt), from_string=True, make_backup=False, **real_kwargs(case, 1))
+            except sqlite3.OperationalError as ex:
+                raised = ex
+            except Exception as ex:
+                th.join()
+                report(ctx, case, "outcome", "update() while another connection held the write lock for %.1f s raised %r although no key "
+                       "collides (sqlite3.OperationalError or success expected)" % (case["hold"], ex))
+                contracts.drain()
+                return store
+            t_done = time.time()
+        finally:
+            th.join()
+        ctx.mon("update() calls")
+        ctx.mon("transient lock: update() calls made while another connection held a write transaction > 5 s")
+        waited = t_done - t_lock
+        if released and t_done < released[0]:
+            ctx.mon("transient lock: update() ended before the lock was released")
+        if raised is not None:
+            ctx.mon("transient lock: update() raised sqlite3.OperationalError (%s)" % ("database is locked" if "locked" in str(raised) else "other"))
+            # nothing is judged but the retry on a fresh handle
+            try:
+                db.conn.close()
+            except Exception:
+                pass
+            db = gffutils.FeatureDB(dbfn)
+            try:
+                db.update(text_of(new, fmt), from_string=True, make_backup=False, **real_kwargs(case, 1))
+            except Exception as ex:
+                report(ctx, case, "outcome", "retry of the update on a fresh handle, after the lock was released, raised %r" % (ex,))
+                contracts.drain()
+                return store
+            ctx.mon("update() calls")
+            ctx.mon("transient lock: retry on a fresh handle compared with the model")
+        else:
+            ctx.mon("transient lock: update() returned normally after %s; content compared with the model" % (
+                "waiting >= 5 s" if waited >= 5 else "< 5 s"))
+        ctx.mon("histories")
+        ctx.mon("arrivals", store.count)
+        ctx.mon("transient-lock cases judged (strategy %s)" % strategy)
+        ctx.mon("transient-lock cases judged")
+        compare(ctx, case, db, store)
+    finally:
+        for c in (getattr(db, "conn", None), blocker):
+            try:
+                if c is not None:
+                    c.close()
+            except Exception:
+                pass
+        if os.path.exists(dbfn):
+            os.unlink(dbfn)
+    for v in contracts.drain():
+        ctx.violation(case, v)
+    return store
+
+
 def account(ctx, case, store):
     if store is None:
         return
@@ -595,10 +792,15 @@ def account(ctx, case, store):
     for o in case.get("opts", []):
         if o != "gtfkeys":
             ctx.classes["input class: " + {"flags": "valueless attribute keys", "dots": "'.' start/end",
-                                           "extras": "extra columns", "farbins": "variants in different genomic bins"}[o]
+                                           "extras": "extra columns", "farbins": "variants in different genomic bins",
+                                           "edited": "coordinates edited after construction"}[o]
                         + ", strategy=" + case["strategy"]] += 1
     if "verbose" in case:
         ctx.classes["verbose=%r: strategy=%s" % (case["verbose"], case["strategy"])] += 1
+    if case["kind"] == "locked":
+        ctx.classes["transient lock during update(): strategy=" + case["strategy"]] += 1
+    for m in set(case.get("modes") or ()):
+        ctx.classes["coordinates edited after construction (%s): strategy=%s" % (m, case["strategy"])] += 1
     runs = store.collision_runs()
     if 0 in runs and len(runs) >= 3:
         ctx.classes["collisions in create_db and >= 2 update() runs: strategy=" + case["strategy"]] += 1
@@ -611,7 +813,8 @@ def account(ctx, case, store):
         ctx.classes["arrival: natural key collides with '<key>_n' entry"] += nat
     many = any(len(p) >= 3 for p in case.get("pattern", []))
     ctx.case((case["strategy"], case["fmt"], case["force"] if noncanonical(case) else sorted(case["force"]), nb,
-              case.get("pattern"), case.get("gtfkeys"), case.get("opts"), len(runs), repr(case.get("verbose"))), many,
+              case.get("pattern"), case.get("gtfkeys"), case.get("opts"), len(runs), repr(case.get("verbose")),
+              case.get("modes"), [[bool(p) for p in bl] for bl in case.get("built") or []], case["kind"]), many or case["kind"] == "locked",
              sample={"strategy": case["strategy"], "force": case["force"], "fmt": case["fmt"], "arrivals": store.log,
                      "verbose": case.get("verbose", "not given"),
                      "input": [text_of(b, case["fmt"]) for b in case["batches"]][:2]})
@@ -709,6 +912,24 @@ def run(ctx):
         else:
             case = G.gen_history(rng, fmt, strategy, force, rng.choice(["create", "update"]), opts=o)
         account(ctx, case, execute(ctx, case))
+    # 2f. colliding newcomers whose coordinates were edited after construction (by a transform / by the caller), around
+    #     genomic-bin boundaries
+    for _ in range(ctx.budget(640, 14000)):
+        strategy = rng.choice(["merge", "merge", "merge", "replace", "warning", "create_unique", "error"])
+        force = rng.choice(M.subsets()) if strategy == "merge" and rng.random() < 0.5 else []
+        fmt = rng.choice(["gff3", "gff3", "gtf"])
+        o = draw_opts(rng, fmt)
+        case = G.gen_edited(rng, fmt, strategy, force, opts=o)
+        account(ctx, case, execute(ctx, case))
+    # 2g. a transient lock held by another connection while update() inserts; nothing collides.  Quick: one case on the
+    #     last shard; thorough: every strategy, one per shard
+    if ctx.tier == "quick":
+        todo = [rng.choice(["warning", "create_unique"])] if ctx.shard == ctx.nshards - 1 else []
+    else:
+        todo = [st for i, st in enumerate(M.STRATEGIES) if i % ctx.nshards == ctx.shard]
+    for strategy in todo:
+        case = G.gen_locked(rng, rng.choice(["gff3", "gff3", "gtf"]), strategy)
+        account(ctx, case, execute(ctx, case))
     # 3. start/end cannot be forced
     for _ in range(ctx.budget(60, 1600)):
         case = G.gen_badforce(rng, rng.choice(["gff3", "gtf"]))
@@ -730,7 +951,12 @@ MANIFEST = {
             "(False / True / 'debug', also one history under all three), colliding lines with differing extra (10th, 11th) "
             "columns and arrivals in different genomic bins. Every stored feature is also read through the live handle: "
             "db[key] against the model, str(db[key]) against the kept arrival's line (merged features: columns and attribute "
-            "parts), and it must be found by region(completely_within=True) and all_features(limit=) at its position.",
+            "parts), and it must be found by region(completely_within=True) and all_features(limit=) at its position. "
+            "Colliding newcomers are also handed over as Feature objects whose coordinates were edited after construction (by a "
+            "transform or by the caller), across genomic-bin boundaries, onto or away from the stored feature's columns; and an "
+            "update() in which nothing collides runs while another connection holds a write transaction beyond the busy "
+            "timeout: it must fail with sqlite3.OperationalError (a retry then gives the model's content) or store every "
+            "newcomer under its own key.",
     "note": "Trusted: gvmon/models/C05.py and the reference renderer. The relation part is reported under its own reason "
             "('relations: ...') so that it can be told apart from feature/attribute mismatches.",
 }
